@@ -24,9 +24,9 @@ __CPROVER_ensures(__CPROVER_return_value == (g_op_is_and ? (a && b) : (a || b)))
 _Bool is_flag_active2(const fsm_t* self)
 __CPROVER_requires(__CPROVER_is_fresh(self, sizeof(*self)) && 1 <= nr_regions && nr_regions <= NR_CAP && 0 <= g_k && g_k < nr_regions && WF_STATES(self))
 __CPROVER_assigns()                                                                                       /*@ob C17.flag-evaluation-has-no-side-effect */
-__CPROVER_ensures((!g_op_is_and && HANS(self->m_states[g_k])) ==> __CPROVER_return_value)               /*@ob C17.or-flag-active-if-some-regions-active-state-has-it */
+__CPROVER_ensures((!g_op_is_and && HANS(self->m_states[g_k])) ==> __CPROVER_return_value)               /*@ob C17,C11.or-flag-active-if-some-regions-active-state-has-it */
 __CPROVER_ensures((g_op_is_and && !HANS(self->m_states[g_k])) ==> !__CPROVER_return_value)              /*@ob C17.and-flag-inactive-if-some-regions-active-state-lacks-it */
-__CPROVER_ensures(nr_regions == 1 ==> __CPROVER_return_value == HANS(self->m_states[0]))                 /*@ob C17.single-region-flag-is-the-active-states-flag */
+__CPROVER_ensures(nr_regions == 1 ==> __CPROVER_return_value == HANS(self->m_states[0]))                 /*@ob C17,C11.single-region-flag-is-the-active-states-flag */
 ;
 /* exact fold semantics with a witness-free formulation: result == fold(BinaryOp, handlers of active states) is expressed by
    the loop invariant below (acc_or / acc_and ghost accumulators computed by the invariant, not by the code) */
@@ -57,5 +57,5 @@ __CPROVER_ensures(g_visit_next == nr_regions)                                   
 const int* current_state(const fsm_t* self)
 __CPROVER_requires(__CPROVER_is_fresh(self, sizeof(*self)))
 __CPROVER_assigns()
-__CPROVER_ensures(__CPROVER_return_value == self->m_states)                                               /*@ob C03.current-state-is-the-active-configuration */
+__CPROVER_ensures(__CPROVER_return_value == self->m_states)                                               /*@ob C03,C19.current-state-is-the-active-configuration */
 ;
